@@ -33,7 +33,7 @@ func (c Case) wire() []byte {
 var prop = ev.Register(&ev.Prop[Case]{
 	ID:   "C04",
 	Name: "framing",
-	Rule: "bodies assembled by the reference encoder from (code, flags, vendor, declared length, payload) records: fixed-width codes with payloads of every length 0..40, Address payloads of every family and length, payloads that are themselves encoded AVPs, nested to depth 4, declared lengths overridden with boundary values, 1 in 1500 (quick, up to 3 MiB) / 20000 (thorough, up to 16 MiB) AVPs at depth <= 2 with a payload of 64 KiB and more (sizes around powers of two); non-trivial = some container holds an AVP whose payload length differs from its type's natural width (or an Address / smuggling payload) followed by a further AVP; distinct by hash of the wire image + dictionary",
+	Rule: "bodies assembled by the reference encoder from (code, flags, vendor, declared length, payload) records: fixed-width codes with payloads of every length 0..40, Address payloads of every family and length, payloads that are themselves encoded AVPs, nested to depth 4, declared lengths overridden with boundary values, about 1 in 300 (quick, up to 3 MiB) / 4000 (thorough, up to 16 MiB) AVPs at depth <= 2 with a payload of 64 KiB and more (sizes around powers of two); non-trivial = some container holds an AVP whose payload length differs from its type's natural width (or an Address / smuggling payload) followed by a further AVP; distinct by hash of the wire image + dictionary",
 	Gen:  genCase,
 	Run:  runCase,
 	Classify: func(c Case) (bool, []string) {
@@ -180,7 +180,9 @@ var hugeSizes = []int{1<<16 - 8, 1 << 16, 1<<17 + 1, 1<<20 - 12, 1<<20 - 8, 1<<2
 func genNode(t *rapid.T, cat *gen.Catalog, app uint32, depth int) *refcodec.Node {
 	var n *refcodec.Node
 	k := rapid.IntRange(0, 99).Draw(t, "kind")
-	if depth <= 2 && rapid.IntRange(0, ev.Pick(1499, 19999)).Draw(t, "huge") == 0 { // a payload of 64 KiB .. 16 MiB
+	// a payload of 64 KiB .. 16 MiB, rarely: rapid favours the ends of an integer range, so the
+	// decision is taken from the residue of a wide draw, which it does not favour
+	if hugeMod := uint64(ev.Pick(300, 4000)); depth <= 2 && rapid.Uint64().Draw(t, "huge")%hugeMod == hugeMod/2 {
 		if rapid.Bool().Draw(t, "huge-undefined") {
 			n = &refcodec.Node{Code: 3000000 + rapid.Uint32Range(0, 50).Draw(t, "ucode"), Flags: 0x40}
 		} else if e, ok := pickEntry(t, cat, app, []string{gen.TOctetString, gen.TUTF8String}); ok {
